@@ -8,12 +8,17 @@
   layer are not modelled — they are *arbitrary*: any task may take its next action at any time, every
   await may return normally, fail, or deliver a cancellation (no `cancel()` request is needed for a
   cancellation to arrive, which over-approximates asyncio), and every `server_event` may return any
-  list of commands.  Only three things constrain a schedule, and they are the three facts about
-  asyncio the code relies on:
-    * `Semaphore.acquire` succeeds only while fewer than `size` tasks hold that address' semaphore;
-    * `asyncio.wait(tasks)` returns only after those tasks have finished *and* their earlier
-      registered done-callbacks (`release_transport`) have run;
-    * a done-callback runs only after its task has finished.
+  list of commands.  The parts of asyncio the code relies on are an explicit small-step scheduler:
+    * every handler task carries its list of done-callbacks in registration order (`cbs`):
+      `release_transport` is registered when the task is created, `asyncio.wait`'s completion
+      callback (`waitH`) when handle_client starts waiting for it; label `cb t` runs the FIRST
+      pending callback of task `t`, and only once `t` has finished (asyncio: a future's callbacks are
+      scheduled at completion, in registration order, each exactly once);
+    * `asyncio.wait` is its counter (`hcount`): set to the number of awaited tasks, decremented by
+      each `waitH` callback; handle_client resumes only at zero;
+    * `Semaphore.acquire` succeeds only while fewer than `size` tasks hold that address' semaphore
+      (the one remaining assumed fact).
+  Any interleaving = any choice of the next runnable task action or callback.
   `handle_client` itself is assumed not to be cancelled from outside.
   Hook counters (`nCC`, `nSC`, …) are ghost state: they count the `hook` labels of the trace.
 -/
@@ -51,9 +56,15 @@ inductive Act where
 inductive Tid where | H | C | S (i : Nat) | K (i : Nat)
   deriving DecidableEq, Repr
 
+/-- a done-callback of a handler task -/
+inductive Cb where
+  | release      -- ConnectionHandler.release_transport (registered at task creation)
+  | waitH        -- asyncio.wait's _on_completion (registered when handle_client waits for the task)
+  deriving DecidableEq, Repr
+
 inductive Label where
   | act (t : Tid) (a : Act)
-  | forget (t : Tid)                        -- done-callback release_transport found the entry still there
+  | cb (t : Tid)                            -- the event loop runs the first pending done-callback of task t
   deriving DecidableEq, Repr
 
 /-- why server_connect_error is being fired -/
@@ -77,6 +88,7 @@ structure Conn where
   addr  : Option Nat
   pc    : PC
   entry : Bool          -- `transports[connection]` exists and belongs to this task
+  cbs   : List Cb       -- done-callbacks not yet run, in registration order
   nSC : Nat
   nSD : Nat
   nSE : Nat
@@ -188,7 +200,7 @@ def stepK (pc : KPC) (a : Act) : Option (KPC × List Cmd) :=
 /-- program counter of handle_client -/
 inductive HPC where
   | h0 | inCC | killClose | preStart | waitC | preCD | inCD
-  | final (waitFor : List Nat)      -- `await asyncio.wait(handlers of the entries still in transports)`
+  | final                           -- `await asyncio.wait(handlers of the entries still in transports)`
   | returned
   deriving DecidableEq, Repr
 
@@ -198,6 +210,8 @@ structure St where
   cpc    : CPC
   centry : Bool          -- transports[client] exists
   cwopen : Bool          -- client writer not closed
+  ccbs   : List Cb       -- pending done-callbacks of the client connection handler task
+  hcount : Nat           -- asyncio.wait: tasks handle_client is still waiting for
   conns  : List Conn     -- open_connection tasks in creation order
   hooks  : List KPC
   nCC : Nat
@@ -206,11 +220,11 @@ structure St where
   deriving DecidableEq, Repr
 
 def init (size : Nat) : St :=
-  { size, hpc := .h0, cpc := .absent, centry := true, cwopen := true, conns := [], hooks := [],
+  { size, hpc := .h0, cpc := .absent, centry := true, cwopen := true, ccbs := [], hcount := 0, conns := [], hooks := [],
     nCC := 0, nCD := 0, lateOpen := false }
 
 def isLate : HPC → Bool
-  | .final _ | .returned => true
+  | .final | .returned => true
   | _ => false
 
 /-- `assert command.connection not in self.transports` -/
@@ -218,7 +232,7 @@ def keyFree (conns : List Conn) (key : Nat) : Bool :=
   conns.all (fun c => !(c.entry && c.key == key))
 
 def newConn (key : Nat) (addr : Option Nat) : Conn :=
-  { key, addr, pc := .created, entry := true, nSC := 0, nSD := 0, nSE := 0, nSX := 0 }
+  { key, addr, pc := .created, entry := true, cbs := [.release], nSC := 0, nSD := 0, nSE := 0, nSX := 0 }
 
 def applyCmd (s : St) : Cmd → Option St
   | .opn key addr =>
@@ -241,15 +255,9 @@ def semFree (s : St) (c : Conn) : Bool :=
   | some a => s.conns.countP (holdsAt a) < s.size
   | none => false
 
-/-- indices of the tasks whose entry is still in transports -/
-def entryIdx : List Conn → Nat → List Nat
-  | [], _ => []
-  | c :: cs, i => if c.entry then i :: entryIdx cs (i + 1) else entryIdx cs (i + 1)
-
-def settledAt (conns : List Conn) (i : Nat) : Bool :=
-  match conns[i]? with
-  | some c => c.pc == .done && !c.entry
-  | none => true
+/-- `asyncio.wait([x.handler for x in self.transports.values() if x.handler])` registers its completion
+    callback on every task whose entry is still in transports -/
+def regWait (c : Conn) : Conn := if c.entry then { c with cbs := c.cbs ++ [.waitH] } else c
 
 def stepH (s : St) (a : Act) : Option St :=
   match s.hpc, a with
@@ -257,12 +265,14 @@ def stepH (s : St) (a : Act) : Option St :=
   | .inCC, .hookret .ok true => some { s with hpc := .killClose }
   | .inCC, .hookret .ok false => some { s with hpc := .preStart }
   | .killClose, .wclose => some { s with hpc := .preCD, centry := false, cwopen := false }
-  | .preStart, .ev .start cmds => applyCmds { s with hpc := .waitC, cpc := .created } cmds
-  | .waitC, .hook .cd =>
-    if s.cpc = .done ∧ s.centry = false then some { s with hpc := .inCD, nCD := s.nCD + 1 } else none
+  | .preStart, .ev .start cmds =>
+    -- create the client connection handler (its release_transport callback), then asyncio.wait([handler])
+    applyCmds { s with hpc := .waitC, cpc := .created, ccbs := [.release, .waitH], hcount := 1 } cmds
+  | .waitC, .hook .cd => if s.hcount = 0 then some { s with hpc := .inCD, nCD := s.nCD + 1 } else none
   | .preCD, .hook .cd => some { s with hpc := .inCD, nCD := s.nCD + 1 }
-  | .inCD, .hookret .ok _ => some { s with hpc := .final (entryIdx s.conns 0) }
-  | .final w, .fin => if w.all (settledAt s.conns) then some { s with hpc := .returned } else none
+  | .inCD, .hookret .ok _ =>
+    some { s with hpc := .final, conns := s.conns.map regWait, hcount := s.conns.countP (·.entry) }
+  | .final, .fin => if s.hcount = 0 then some { s with hpc := .returned } else none
   | _, _ => none
 
 def step (s : St) : Label → Option St
@@ -287,13 +297,26 @@ def step (s : St) : Label → Option St
       | some (pc', cmds) => applyCmds { s with hooks := s.hooks.set i pc' } cmds
       | none => none
     | none => none
-  | .forget .C =>
-    if s.cpc = .done ∧ s.centry = true then some { s with centry := false, cwopen := false } else none
-  | .forget (.S i) =>
+  | .cb .C =>
+    if s.cpc = .done then
+      match s.ccbs with
+      | .release :: rest =>
+        -- release_transport: the entry is still there only if the handler never got to pop it
+        if s.centry then some { s with ccbs := rest, centry := false, cwopen := false } else some { s with ccbs := rest }
+      | .waitH :: rest => some { s with ccbs := rest, hcount := s.hcount - 1 }
+      | [] => none
+    else none
+  | .cb (.S i) =>
     match s.conns[i]? with
-    | some c => if c.pc = .done ∧ c.entry = true then some { s with conns := s.conns.set i { c with entry := false } } else none
+    | some c =>
+      if c.pc = .done then
+        match c.cbs with
+        | .release :: rest => some { s with conns := s.conns.set i { c with cbs := rest, entry := false } }
+        | .waitH :: rest => some { s with conns := s.conns.set i { c with cbs := rest }, hcount := s.hcount - 1 }
+        | [] => none
+      else none
     | none => none
-  | .forget _ => none
+  | .cb _ => none
 
 def run (s : St) : List Label → Option St
   | [] => some s
